@@ -4,7 +4,7 @@ use crate::core::{Digits, Local, Run};
 use crate::exact::{Q, q, qf, to_f64};
 use crate::linsem::*;
 use crate::lm::{Dom, Sense};
-use crate::props::c01::{CTX_NAMES, Case, cores, ctx, drop_unreferenced, family_a, family_a_size, family_c, family_c_size, family_d, family_d_size, grid};
+use crate::props::c01::{CTX_NAMES, Case, cores, ctx, drop_unreferenced, family_a, family_a_size, family_ax, family_ax_size, family_c, family_c_size, family_d, family_d_size, grid};
 use crate::refsem::{Env, eval};
 use rooc::model_transformer::Exp;
 use serde_json::json;
@@ -409,7 +409,7 @@ pub fn run(mut run: Run) -> ! {
     let quick = run.quick();
     // quick = chains of <= 2 contexts over reduced menus and of <= 1 context over the full menus; thorough = chains of <= 3 over the full menus
     let depth = if quick { 2 } else { 3 };
-    run.rule = format!("(a) every model of the C01 families A (cores x context chains x relations x constants x declaration forms, depth {depth}) C (bound feeders x consumers), D (blocks over three variables with different ranges, every context) and I (an integer variable bounded through a * i REL fl(a * k) for 16 coefficients that are inexact in binary floating point x k in -4..4 x 3 relations x both sides x coefficient left/right, alone or chained to a second integer) is analysed through the verif_hooks view of the bounds analysis with EVERY step budget 0..K (K = first budget that is not exhausted; each prefix of the propagation work-list is a stopping point), on the raw and on the normalised constraints; every derived variable range, every published domain (integer rounding applied) and the compiled model's domains must contain the exact range of that variable over the source-feasible set, never be NaN, be non-empty unless infeasibility is recorded, and infeasibility may only be recorded for infeasible models; (b) bounds_of for every core-in-context expression over 9 boxes (finite, half-infinite, infinite, degenerate, negative, integer, non-dyadic) must contain the exact range of the piecewise-linear expression; distinct = model / expression text");
+    run.rule = format!("(a) every model of the C01 families A (cores x context chains x relations x constants x declaration forms, depth {depth}), AX (depth <= 1 over a single-point integer range and a finite range of +-1e18), C (bound feeders x consumers), D (blocks over three variables with different ranges, every context) and I (an integer variable bounded through a * i REL fl(a * k) for 16 coefficients that are inexact in binary floating point x k in -4..4 x 3 relations x both sides x coefficient left/right, alone or chained to a second integer) is analysed through the verif_hooks view of the bounds analysis with EVERY step budget 0..K (K = first budget that is not exhausted; each prefix of the propagation work-list is a stopping point), on the raw and on the normalised constraints; every derived variable range, every published domain (integer rounding applied) and the compiled model's domains must contain the exact range of that variable over the source-feasible set, never be NaN, be non-empty unless infeasibility is recorded, and infeasibility may only be recorded for infeasible models; (b) bounds_of for every core-in-context expression over 9 boxes (finite, half-infinite, infinite, degenerate, negative, integer, non-dyadic) must contain the exact range of the piecewise-linear expression; distinct = model / expression text");
     run.assume("exact source-feasible ranges from the region partition of one continuous variable (other continuous variables on a rational grid: an inner approximation, sound for this one-sided check); tolerance 1e-9 relative, the analyser's own");
     if quick {
         // chains of <= 2 contexts over the reduced menus, chains of <= 1 context over the full menus
@@ -424,6 +424,8 @@ pub fn run(mut run: Run) -> ! {
             check_model(&c, l);
         });
     }
+    run.family("AX-single-point-integer-range-x-step-budgets", family_ax_size(), |i, l| check_model(&family_ax(i, 0), l));
+    run.family("AXH-huge-finite-range-x-step-budgets", family_ax_size(), |i, l| check_model(&family_ax(i, 1), l));
     run.family("C-feeders-x-step-budgets", family_c_size(), |i, l| {
         let c = family_c(i);
         check_model(&c, l);
